@@ -323,14 +323,18 @@ def is_loop_output_not_reemitted(prog, res: R.RunResult) -> bool:
             lost_t = [l["t"] for l in res.losses if any(step_of(p) in bodies[ln] for p in l["producers"])]
             if not lost_t:
                 continue
-            t0 = min(lost_t)
-            if not [c for c in calls if c["start"] > t0]:
+            last_call = max(c["start"] for c in calls)
+            before = [t for t in lost_t if t < last_call]
+            if not before:
                 continue
-            chain = [j] + [a for a in anc.get(j, ()) if ln in dl.get(a, ())]
-            for x in chain:
-                lost_x = x == j or any(x in l["producers"] for l in res.losses)
-                ok_after = [e for e in res.execs.get(x, ()) if e["outcome"] == "ok" and e["start"] > t0]
-                if lost_x and not ok_after:
+            # J itself: never ran successfully after the loop data was (last) lost before its recovery
+            t0 = max(before)
+            if not [e for e in res.execs.get(j, ()) if e["outcome"] == "ok" and e["start"] > t0]:
+                return True
+            # a job between L and J whose own output was deleted and that never ran again
+            for x in (a for a in anc.get(j, ()) if ln in dl.get(a, ())):
+                lost_x = [l["t"] for l in res.losses if x in l["producers"]]
+                if lost_x and not [e for e in res.execs.get(x, ()) if e["outcome"] == "ok" and e["start"] > max(lost_x)]:
                     return True
     return False
 
@@ -340,8 +344,9 @@ def is_scatter_join_mispaired(prog, res: R.RunResult) -> bool:
     different tag orders after a recovery delayed one element: ExecuteStep._check_inputs pairs 'the
     job just fetched from the job port' with 'whatever tag is complete', so one job of the step is
     consumed and never run while another job runs twice (same output directory) although it never
-    failed; the executor returns normally with a wrong list."""
-    if res.status != "ok" or not res.recover_calls:
+    failed; the executor returns normally with a wrong list, or - when the doubly used job carries
+    an injected fault - its recovery recurses until the retry limit aborts the workflow."""
+    if res.status not in ("ok", "raised") or not res.recover_calls:
         return False
     by_step: dict = {}
     for j in R.jobs_of(prog):
@@ -352,9 +357,12 @@ def is_scatter_join_mispaired(prog, res: R.RunResult) -> bool:
             continue
         ok = {j: sum(1 for e in res.execs.get(j, ()) if e["outcome"] == "ok") for j in js}
         failed = {j: sum(1 for e in res.execs.get(j, ()) if e["outcome"] != "ok") for j in js}
-        never = [j for j in js if ok[j] == 0 and failed[j] == 0]
+        never = [j for j in js if ok[j] == 0 and failed[j] == 0 and j not in res.recover_calls]
         twice = [j for j in js if ok[j] >= 2 and failed[j] == 0]
-        if never and twice:
+        mismatch = [j for j in js for e in res.execs.get(j, ()) if e.get("in_tag") not in (None, j.rsplit("/", 1)[1])]
+        # a job token consumed without ever being run (and never reported as failed) is the signature;
+        # a job run twice / run on another element's inputs is additional evidence when present
+        if never and (twice or mismatch or res.status == "ok"):
             return True
     return False
 
